@@ -17,13 +17,13 @@ CHECKS = {
  "C04": ("model_checking", "bounded symbolic execution of diff.DiffTables on two symbolic tables vs a set-difference oracle; offset arithmetic for all 2^24 x 255 offsets by SMT",
          "Real DiffTables (differ goroutine, window search, block-index lookup) on synthetic small-block tables with symbolic 1-byte keys (strictly increasing per table) and symbolic row sums, 0-2 (quick) / 0-3 (thorough) blocks per side: events = exactly added/removed/modified, no key twice, offsets address the right rows; RowToBlockAndOffset inverse for every offset. CLI rendering is outside.", "4 C04"),
  "C05": ("model_checking", "bounded symbolic execution of CompareColumns + RowResolver.Resolve on symbolic cells over concrete column layouts, and of the whole Merger/RowCollector pipeline on symbolic non-key cells; oracle = cell-wise three-way rule by column name",
-         "Resolver kernel: 2-3 layers, layouts {same, +col, -col, reordered, renamed, key not first}, every presence pattern, 1-byte symbolic cells: one distinct change wins, none -> base, different changes / remove-vs-modify -> flagged, never a silent pick. Pipeline: base of 2-3 rows and 2 branches with disjoint edits / one-sided removals / an added row, key column first or not: result = base with each branch's edits under its own column names (hashes in ids mode). Interactive resolver and CLI are outside.", "4 C05"),
+         "Resolver kernel: 2-3 layers, layouts {same, +col, -col, reordered, renamed, key not first}, every presence pattern, 1-byte symbolic cells: one distinct change wins, none -> base, different changes / remove-vs-modify -> flagged, never a silent pick. Pipeline: base of 2-3 rows and 2 branches with disjoint edits / one-sided removals / an added row, key column first or not: result = base with each branch's edits under its own column names (hashes in ids mode). Command layer: the real runMerge (cmd/wrgl) end to end on base + 2 branch commits where each branch removes columns of its own and edits its own rows: committed result = the columns nobody removed and the base rows with each branch's edits, in either listing order. Interactive conflict resolver, --no-gui/--no-commit output and fast-forward paths are outside.", "4 C05"),
  "C06": ("model_checking", "bounded symbolic execution of encoders/decoders; the packfile length header for all 2^64 lengths via a measured float mini-domain + SMT",
          "Packfile type+length header round-trips for every object length u in [1,2^64) and type 1..3 (u=0 is a known finding). Other codecs: see obligations in the evidence; lengths beyond the stated bounds (64 KiB cells) are only covered where the obligation says so.", "4 C06"),
  "C07": ("model_checking", "bounded symbolic execution of ObjectSender -> packfile -> ObjectReceiver with the packfile size limit as one 64-bit SMT variable",
          "Three repository scenarios (chain, 255/256-row tables sharing a block, fork+merge with a re-used table) x destination pre-populated (nothing / first block / first commit) x EVERY maxPackfileSize: byte-identical commits/tables/blocks, block indices, table index and profile rebuilt identically to ingest's, receive order (blocks < table < commit, parents first), done <=> nothing left, a commit with a missing parent is refused. HTTP/gzip are outside.", "4 C07"),
  "C08": ("model_checking", "bounded symbolic execution of ClosedSetsFinder (Process/CommitsToSend/TablesToSend over the real CommitsQueue) on all DAGs up to n commits with symbolic timestamps and symbolic ref/want/have sets",
-         "All DAG shapes with n <= 3 (quick) / 4 (thorough) commits, refs/wants/haves as symbolic subsets (incl. an unknown have), 1-2 rounds, depth 0..2: sent + ancestors(acks) cover every ancestor of every want; parents common or earlier; nothing unreachable from the wants; tables exactly for sent commits within depth; unreachable wants refused; step budget as termination bound. Plus one concrete 10/14-commit ladder history for the polynomial-size claim (a single evaluation, known finding).", "4 C08"),
+         "All DAG shapes with n <= 3 (quick) / 4 (thorough) commits, refs/wants/haves as symbolic subsets (incl. an unknown have), 1-2 rounds, depth 0..2: sent + ancestors(acks) cover every ancestor of every want; parents common or earlier; nothing unreachable from the wants; tables exactly for sent commits within depth; unreachable wants refused; step budget as termination bound. The wants set's Go map order is a choice point in a second obligation (n <= 2 quick / 3 thorough). Plus a concrete 10/14-commit ladder history for the polynomial-size claim on the wants side (a single evaluation, known finding) and on the haves side (object reads <= 4 n^2, have list symbolic).", "4 C08"),
  "C10": ("model_checking", "bounded symbolic execution of the fetch gate (saveFetchedRefs) and the client-side push gate (identifyUpdates) over symbolic histories, ref kinds, old/new values and force flags",
          "n <= 2 (quick) / 3 (thorough) commits with symbolic timestamps; 1-2 refs of kind heads/tags/remotes/custom: without force a ref only moves to a descendant, an existing tag is never overwritten, rejected updates leave the ref untouched and do not affect the other ref, rejections are reported, every applied update is logged once with true old/new. pull, merge fast-forward and remote-side enforcement are outside.", "4 C10"),
  "C11": ("model_checking", "bounded symbolic execution of IsAncestorOf / CommitsQueue / SeekCommonAncestor over all DAGs up to n commits with 64-bit symbolic timestamps",
